@@ -1,0 +1,11 @@
+//go:build verif
+
+package rss
+
+import "github.com/makiuchi-d/gozxing/verifhook"
+
+// VerifSnapshot hashes the package-level tables (monitor use only: taken at
+// quiescent points before and after a concurrent workload).
+func VerifSnapshot() uint64 {
+	return verifhook.DeepHash(rss14_OUTSIDE_EVEN_TOTAL_SUBSET, rss14_INSIDE_ODD_TOTAL_SUBSET, rss14_OUTSIDE_GSUM, rss14_INSIDE_GSUM, rss14_OUTSIDE_ODD_WIDEST, rss14_INSIDE_ODD_WIDEST, rss14_FINDER_PATTERNS)
+}
